@@ -1037,12 +1037,14 @@ pub const STRS: [&str; 49] = [
     "x\u{1}y", "x\u{85}y", "x\u{2028}y", "'", "\"", "\\", "a'b\"c", "C:\\x", "*a", "&a", "!a", "[a]", "{a}", "a,b", "|", ">", "%a", "@a", "`a", "---", "...", "a b c", "x\ny\n",
 ];
 
-pub const KEYS: [&str; 19] = [
+pub const KEYS: [&str; 22] = [
     "a b", "", "true", "12", "a: b", "é", "- a", "#a", "'", "k\"", "*a", "? a", "a\nb", "a,b", "null",
     // keys whose double-quoted spelling ends in an escape right before the closing quote (`"\\"`, `"C:\\"`,
     // `"x\\\""`) or starts with one: a scanner that decides "escaped quote" by looking at the previous byte only
     // misreads where the key ends
     "\\", "C:\\", "x\\\"", "\"q",
+    // plain keys of 31 / 32 / 63 characters: `key:` with the colon in the last lane of a 32-byte chunk
+    "kkkkkkkkkkkkkkkkkkkkkkkkkkkkkkk", "kkkkkkkkkkkkkkkkkkkkkkkkkkkkkkkk", "kkkkkkkkkkkkkkkkkkkkkkkkkkkkkkkkkkkkkkkkkkkkkkkkkkkkkkkkkkkkkkk",
 ];
 
 pub const KEY_NAMES: [&str; 5] = ["k", "j", "i", "m", "n"];
